@@ -54,6 +54,11 @@ type CacheCfg struct {
 	Ivl        time.Duration
 	HasMinCap  bool
 	MinCap     int
+	// Earlier: the same options given once more, EARLIER in the option list, with these values (the later
+	// occurrence must win): WithDefaultExpiration(EarlierDef), WithCleanupInterval(EarlierIvl)
+	Earlier    bool
+	EarlierDef time.Duration
+	EarlierIvl time.Duration
 	Callback   func(k, v int) // installed at construction when non-nil
 	Payload    bool           // values are pointers to freshly initialised memory (race check)
 }
@@ -70,6 +75,9 @@ func (c CacheCfg) String() string {
 		return s + ")"
 	}
 	s += ".New("
+	if c.Earlier {
+		s += fmt.Sprintf("earlier: def=%v ivl=%v; ", c.EarlierDef, c.EarlierIvl)
+	}
 	if c.HasDef {
 		s += fmt.Sprintf("def=%v ", c.Def)
 	}
@@ -134,6 +142,9 @@ func newCache(cfg CacheCfg) CacheLike {
 			}
 		} else {
 			var opts []cache.Option
+			if cfg.Earlier {
+				opts = append(opts, cache.WithDefaultExpiration(cfg.EarlierDef), cache.WithCleanupInterval(cfg.EarlierIvl))
+			}
 			if cfg.HasDef {
 				opts = append(opts, cache.WithDefaultExpiration(cfg.Def))
 			}
@@ -291,6 +302,9 @@ func newCacheOf[K comparable, V any](cfg CacheCfg, toK func(int) K, fromK func(K
 		}
 	} else {
 		var opts []cache.OptionOf[K, V]
+		if cfg.Earlier {
+			opts = append(opts, cache.WithDefaultExpirationOf[K, V](cfg.EarlierDef), cache.WithCleanupIntervalOf[K, V](cfg.EarlierIvl))
+		}
 		if cfg.HasDef {
 			opts = append(opts, cache.WithDefaultExpirationOf[K, V](cfg.Def))
 		}
